@@ -8,7 +8,7 @@ import applyc
 FILLER = ["", "From: someone@example.org", "Subject: [PATCH] fix things", "Date: Mon, 1 Jan 2024", "commit 1234abcd",
           "    indented commit message line", "-- ", "2.39.2", "Signed-off-by: A <a@b>", "Only in dir: file", "diff -ruN a/x b/x",
           "some text with a tab\tin it", "> quoted reply", "--", "***", "+ not a diff", "0 files changed",
-          "@alice: looks good to me", "@", "@@ see above"]
+          "@alice: looks good to me", "@", "@@ see above", "- a bullet in a note", "-\tdash and tab"]
 
 NAMES = ["f", "dir/f", "a b", "x.c", "d1/d2/g.txt", "f-1", "weird\\name", "caf\xe9", "tab\tname", 'q"uote']
 
